@@ -44,6 +44,12 @@ func c15(r *core.Run) {
 	if in := bankOf(p, hi, "SendCoinsFromAccountToModule"); len(in) == 1 {
 		if s, complete, ok := p.ConstPrefix(in[0].Args[1]); ok && complete {
 			collName = s
+		} else {
+			for _, a := range p.ResolveToEntry(p.ProvAt(in[0].Args[1], "", in[0].Instr), hi.Fn) {
+				if a.Kind == "const" {
+					collName = strings.Trim(a.Name, "\"")
+				}
+			}
 		}
 	}
 	isCollateralAcct := func(v ssa.Value, at ssa.Instruction) bool {
@@ -60,7 +66,7 @@ func c15(r *core.Run) {
 		r.Violation("C15/R1", hi.Key()+":lock", p.Pos(hi.Fn.Pos()), "expected exactly one bank call (the collateral lock)")
 	} else {
 		bo := in[0]
-		ap := p.ProvAt(bo.Args[2], "", bo.Instr).DataAtoms()
+		ap := p.ResolveToEntry(p.ProvAt(bo.Args[2], "", bo.Instr), hi.Fn).DataAtoms()
 		okA := len(ap) == 1 && ap[0].Kind == "params" && ap[0].Name == "storage" && ap[0].Path == ".CollateralPrice"
 		r.Check(okA, "C15/R1", hi.Key()+":lock-amount", p.InstrPos(bo.Instr), "locked coins ⊵ Param(CollateralPrice) only", "locked amount is not exactly the collateral price parameter")
 		r.Check(p.OnlyMsgField(p.ProvAt(bo.Args[0], "", bo.Instr), hi, "Creator"), "C15/R1", hi.Key()+":payer-is-signer", p.InstrPos(bo.Instr), "payer ⊵ signer only", "collateral is taken from an account other than the signer")
@@ -148,8 +154,36 @@ func c15(r *core.Run) {
 				continue
 			}
 			nAcct++
+			// the function may be the handler itself or a helper reachable only from the two handlers
 			okw := fn == hi.Fn || fn == hd.Fn
-			r.Check(okw, "C15/R3", core.FnName(fn)+":touches-escrow:"+bo.Method, p.InstrPos(bo.Instr), "collateral escrow touched only by init/shutdown", "a function other than the init/shutdown handlers moves coins of the collateral escrow account")
+			if !okw {
+				okw = true
+				inOwn := false
+				for _, h2 := range hs {
+					reachable := false
+					for _, f2 := range p.Summary(h2.Fn).Funcs {
+						if f2 == fn {
+							reachable = true
+						}
+					}
+					if reachable && (h2 == hi || h2 == hd) {
+						inOwn = true
+					}
+					if reachable && h2 != hi && h2 != hd {
+						okw = false
+					}
+				}
+				bbs, ebs := p.BlockEntries()
+				for _, be := range append(bbs, ebs...) {
+					for _, f2 := range p.Summary(be).Funcs {
+						if f2 == fn {
+							okw = false
+						}
+					}
+				}
+				okw = okw && inOwn
+			}
+			r.Check(okw, "C15/R3", core.FnName(fn)+":touches-escrow:"+bo.Method, p.InstrPos(bo.Instr), "collateral escrow touched only on the init/shutdown paths", "a function reachable from outside the init/shutdown handlers moves coins of the collateral escrow account")
 		}
 	}
 	r.Floor("C15/R3", nAcct, 2, "bank calls naming the collateral escrow")
